@@ -3,7 +3,10 @@ package main
 func init() { register("C20", propC20) }
 
 func propC20(c *Ctx) propInfo {
+	c.statelessCodecs("E17.stateless", excStateless, "boc", "tlb", "ton")
 	c.bits256Lengths()
+	c.fieldwiseCopy("E2.R-partial-assign", "boc", "tlb", "ton")
+	c.partialAssign("E2.R-partial-assign", "tlb", "ton", "boc")
 	c.bocDepthLimitsAgree() // a cell's JSON form goes through the serialiser AND the hasher: they must accept the same depths
 	c.intFamily(false, true, false)
 	c.jsonPairs("boc", "tlb", "ton", "tl", "abi")
